@@ -122,6 +122,36 @@ type WK struct {
 	Level int
 	Dict  []byte
 	Hdr   bool // gzip only: Name, Comment and Extra are set before the first call (the header goes out in several destination calls)
+	// BadHdr (gzip only): a header field the format cannot hold, which compress/gzip reports from the call that
+	// would write the header: 1 = Extra of 65536 bytes, 2 = NUL inside Name, 3 = non-Latin-1 rune in Comment
+	BadHdr int
+}
+
+// ApplyHdr sets the header fields of the configuration on a fastgo or compress/gzip Writer (after construction and,
+// where a harness wants the fields in every life, after Reset, which clears them).
+func (k WK) ApplyHdr(w interface{}) {
+	var name, comment string
+	var extra []byte
+	if k.Hdr {
+		name, comment, extra = "name.txt", "a comment", []byte{1, 2, 3, 4, 5}
+	}
+	switch k.BadHdr {
+	case 1:
+		extra = make([]byte, 65536)
+	case 2:
+		name = "a\x00b"
+	case 3:
+		comment = "caf\u0100"
+	}
+	if !k.Hdr && k.BadHdr == 0 {
+		return
+	}
+	switch x := w.(type) {
+	case *fgzip.Writer:
+		x.Name, x.Comment, x.Extra = name, comment, extra
+	case *stdgzip.Writer:
+		x.Name, x.Comment, x.Extra = name, comment, extra
+	}
 }
 
 func (k WK) String() string {
@@ -131,6 +161,9 @@ func (k WK) String() string {
 	}
 	if k.Hdr {
 		s += "/hdr"
+	}
+	if k.BadHdr != 0 {
+		s += fmt.Sprintf("/badhdr%d", k.BadHdr)
 	}
 	return s
 }
@@ -194,9 +227,7 @@ func (k WK) Fast(dst io.Writer) (w WC, err error) {
 		if e != nil || x == nil {
 			return nil, e
 		}
-		if k.Hdr {
-			x.Name, x.Comment, x.Extra = "name.txt", "a comment", []byte{1, 2, 3, 4, 5}
-		}
+		k.ApplyHdr(x)
 		return x, nil
 	case "zlib":
 		x, e := fzlib.NewWriterLevel(dst, k.Level)
@@ -234,9 +265,7 @@ func (k WK) Std(dst io.Writer) (w WC, err error) {
 		if e != nil {
 			return nil, e
 		}
-		if k.Hdr {
-			x.Name, x.Comment, x.Extra = "name.txt", "a comment", []byte{1, 2, 3, 4, 5}
-		}
+		k.ApplyHdr(x)
 		return x, nil
 	case "zlib":
 		x, e := stdzlib.NewWriterLevel(dst, k.Level)
